@@ -23,8 +23,14 @@ def w_tdmd(ctx, rng, idx):
     dims = [int(rng.integers(1, 5)) for _ in range(nd)]
     if int(np.prod(dims)) == 1:
         dims[0] = 2
-    N = int(np.prod(dims))
     m = int(rng.integers(2, 8))
+    tall = rng.random() < 0.08
+    if tall:
+        # a fine grid in the last spatial direction and few snapshots: the unfolded core in front of the snapshot core is very tall
+        nd = int(rng.integers(1, 3))
+        dims = [int(rng.integers(1, 4)) for _ in range(nd - 1)] + [int(rng.integers(300, 2600))]
+        m = int(rng.integers(2, 6))
+    N = int(np.prod(dims))
     kind = int(rng.integers(0, 3))
     if kind == 0:  # low-rank linear dynamics z_{k+1} = A z_k
         r = int(rng.integers(1, min(N, m) + 1))
@@ -67,6 +73,16 @@ def w_tdmd(ctx, rng, idx):
             label += '_inflated_ranks'
             if thr == 0.0:
                 thr = 1e-10
+        if rng.random() < 0.2:
+            # cores of different dtypes in one train: real spatial structures times complex temporal coefficients (phases on the
+            # snapshot core only), or a complex weight on one spatial core of otherwise real data
+            k = x.order - 1 if rng.random() < 0.6 else int(rng.integers(0, x.order))
+            for t in ((x, y) if rng.random() < 0.5 else (x,)):
+                ph = np.exp(1j * rng.uniform(0, 2 * np.pi, size=t.row_dims[k]))
+                t.cores[k] = t.cores[k] * ph[None, :, None, None]
+            label += '_mixed_core_dtypes'
+    if tall:
+        label += '_tall'
     ctx.describe({'op': 'tdmd_exact/standard', 'dims': dims, 'snapshots': m, 'data': label, 'threshold': thr, 'ranks': x.ranks})
     call('tdmd.tdmd_exact', td.tdmd_exact, x, y, prop=P, refusals=(np.linalg.LinAlgError,), threshold=thr)
     call('tdmd.tdmd_standard', td.tdmd_standard, x, y, prop=P, refusals=(np.linalg.LinAlgError,), threshold=thr)
